@@ -414,7 +414,7 @@ theorem readStmt_item (cfg : Cfg) (tab : List Str) (it : Item) (rest : List Byte
         simp [readKwStmt, optName_enc tab n _ _ h2 hl hnm, noLabs_nil, readInt_writeInt _ l1 _ hl1,
           hmax, readInt_writeInt _ d _ hd]
     | some v =>
-      have hv2 : v < 2 ^ 64 := by have := hl2 v rfl; omega
+      have hv2 : v < 2 ^ 64 := by have := (hl2 v rfl).1; omega
       cases nm with
       | none =>
         have h1 : Kw.lref.bytes ++ [0] ∈ tab := hin (.name _) (by simp [toksItem, toksNamed]) _ rfl
